@@ -51,7 +51,8 @@ POOL = [
     ("type='signal',interface='a.b',member='X',arg0='foo'",) * 2,
     ("interface='a.b',member='X'",) * 2,
     ("type='method_call',interface='a.b'",) * 2,
-    ("type='method_return'",) * 2,
+    ("type='method_return',sender=':1.5'",) * 2,    # NOT the bare type='method_return': see docs/C37.md (it replaces the
+                                                      # connection's own method-return channel and every later call hangs)
     ("type='error',sender=':1.5'",) * 2,
     ("type='signal',path_namespace='/x'",) * 2,
     ("type='signal',sender=':1.5',interface='a.b',member='Sig',path='/x'",) * 2,      # = proxy(:1.5).receive_signal("Sig")
